@@ -50,24 +50,57 @@ theorem sheet_names_unique : ∀ (labels : List Str) (used names : List Str),
 
 /-! ### the wrapper -/
 
-/-- **Any history**: after any sequence of `load`/`target` calls, `target` returns the result of
-    the problem loaded last (and nothing when none is loaded). -/
+/-- **Any history**: after any sequence of `load`/`target` calls from any sources, `target` returns
+    the result of the problem loaded last, analysed under the project name of THAT source (the file
+    stem for a path, the default for a model or a CSV pair) — a function of the last `load` alone,
+    whatever was loaded or targeted before; nothing when none is loaded. -/
 theorem target_returns_last_loaded (ops : List WOp) :
-    (wstep (wrun {} ops) .target).2 = (wrun {} ops).loaded := by
+    (wstep (wrun {} ops) .target).2 = lastLoad ops := by
   have h := wrun_inv ops {} (Or.inl rfl)
+  have he := expected_run ops {}
+  unfold lastLoad
+  rw [show expected ({} : Wrapper) = none from rfl] at he
+  rw [← he]
   unfold wstep
   cases hc : (wrun {} ops).cached with
-  | none => rfl
   | some r =>
     simp only
     rcases h with h | h
     · rw [hc] at h; cases h
     · rw [← h, hc]
+  | none =>
+    cases hl : (wrun {} ops).loaded with
+    | none => simp [expected, hl]
+    | some i => simp [expected, hl]
+
+/-- History independence in the form the property states it: whatever happened before, loading a
+    problem and then targeting any number of times gives what a fresh wrapper gives for that load. -/
+theorem target_as_fresh (pre post : List WOp) (i : Nat) (src : Src) (hpost : ∀ op ∈ post, op = .target) :
+    (wstep (wrun {} (pre ++ .load i src :: post)) .target).2 = (wstep (wrun {} [.load i src]) .target).2 := by
+  rw [target_returns_last_loaded, target_returns_last_loaded]
+  unfold lastLoad
+  rw [List.foldl_append, List.foldl_cons]
+  simp only [List.foldl_cons, List.foldl_nil]
+  generalize (some (i, srcName src) : Option Res) = acc
+  induction post generalizing acc with
+  | nil => rfl
+  | cons op post ih =>
+    have : op = .target := hpost op List.mem_cons_self
+    subst this
+    rw [List.foldl_cons]
+    exact ih (fun o ho => hpost o (List.mem_cons_of_mem _ ho)) acc
 
 /-- Repeated targeting returns the cached result and leaves the wrapper unchanged. -/
-theorem repeat_target_cached (w : Wrapper) (r : Nat) (h : w.cached = some r) :
+theorem repeat_target_cached (w : Wrapper) (r : Res) (h : w.cached = some r) :
     wstep w .target = (w, some r) := by
   unfold wstep; rw [h]
+
+/-- The code before the project-name `fix:` commit violates the statement: after a file, a model
+    loaded into the same wrapper was analysed under the file's project name (kernel-decided). -/
+theorem legacy_project_name_leaks :
+    (wstepLegacy (wrunLegacy {} [.load 0 (.file 7), .target, .load 1 .model]) .target).2 = some (1, some 7) ∧
+    (wstep (wrun {} [.load 0 (.file 7), .target, .load 1 .model]) .target).2 = some (1, none) := by
+  constructor <;> decide
 
 /-- Non-vacuity: three labels sharing a 31-character prefix with a forbidden character. -/
 example : allocate ["Zone A/Direct Integration (Shifted) 1".toList, "Zone A/Direct Integration (Shifted) 2".toList,
